@@ -290,7 +290,8 @@ Proof.
 Qed.
 
 Theorem frontier_flow_facts :
-  explore_cfg_src = SrcContract /\ frontier_test_inputs = [] /\ cache_key_depth_only = true.
+  explore_cfg_src = SrcContract /\ frontier_test_inputs = [] /\ cache_key_depth_only = true /\
+  setup_state_visited = false.
 Proof. repeat split; reflexivity. Qed.
 
 (* conversely: were the frontier explored under the RUNNING test's config while the cache stays keyed
